@@ -54,12 +54,12 @@ func (h *harness) escapeStream() {
 	r := h.env.Rng
 	for _, w := range reservedWords {
 		n := len(w)
-		masks := []int{1, 1 << uint(n-1), 1 << uint(r.Intn(n)), 1<<uint(n) - 1, r.Intn(1<<uint(n)-1) + 1}
+		masks := []int{1, 1 << uint(n-1), 1<<uint(n) - 1, r.Intn(1<<uint(n)-1) + 1}
 		offender, naccept, total := "", "", 0
 		robust := []bool{true, true, true, true, true, true, true}
 		bad := ""
 		for _, pos := range idPositions {
-			for _, m := range masks {
+			for mi, m := range masks {
 				e := escapeWord(w, m)
 				src := strings.ReplaceAll(pos, "%s", e)
 				if strings.HasPrefix(pos, "%s: for") && r.Intn(2) == 0 { // the two occurrences spelled differently
@@ -74,7 +74,7 @@ func (h *harness) escapeStream() {
 				rc := parseGuard(src, 1<<1, nil)
 				a, b, c, note := true, true, true, ""
 				if !res.accepted() && !res.timeout {
-					a, b, c, note = h.runtimeFlags(src)
+					a, b, c, note = h.runtimeFlagsN(src, mi == 0) // full repetition for one spelling, Run twice for the others
 				}
 				fl := []bool{res.pan == nil && !res.timeout, shapeOK(res), errsInRange(src, res), rc.pan == nil && rc.accepted() == res.accepted(), a, b, c}
 				for i, f := range fl {
